@@ -455,6 +455,8 @@ float64_t igris_atof64(const char *nptr, char **endptr)
         while ((*nptr >= '0' && *nptr <= '9'))
         {
             e_val = e_val * 10 + (*nptr - '0');
+            if (e_val > 100000000)
+                e_val = 100000000; /* saturate: no int overflow, 10^(+-1e8) is inf / 0 anyway */
             nptr++;
         }
         if (nptr == e_digits)
